@@ -6,7 +6,7 @@ from vx.gen import Unit, Fn
 from vx.rustsrc import ExtractError, norm_ws
 from . import common
 
-P = ['C13']
+P = ['C13', 'C06']
 F = 'src/textselection.rs'
 
 CANON_SCAN = 'gap.chars().all(|c| c.is_whitespace())'
@@ -114,6 +114,7 @@ def build():
                      ('R-vis', r'\bdata:', 'pub data:'), ('R-vis', r'\bresource:', 'pub resource:'), ('R-vis', r'\bsorted:', 'pub sorted:')])
     u.item(F, 'enum', 'TextSelectionOperator', keep_derives=['Clone', 'Copy', 'PartialEq'])
     u.trusted_text(TRUSTED, 'external_body TextResource (opaque) and vx_gap_is_whitespace: whitespace-gap scan is the uninterpreted predicate gap(resource,a,b) (R-outline)')
+    u.item(F, 'const', 'WHITESPACE_LIMIT', rewrites=[('R-vis', r'^const ', 'pub const ')])
     u.spec_file('specs/relations.rs')
     u.canary('canary_u_rel', '''
 /// vacuity guard: false by one token (Before is not its own converse); must FAIL
@@ -128,6 +129,7 @@ pub proof fn canary_u_rel(a: TextSelection, b: TextSelection, res: &TextResource
     same = 'with_mods(r, true, true) == with_mods(*self, true, true)'
     u.impl(F, 'impl TextSelectionOperator', [
         Fn('all', props=P, ret='r', ensures=[('is_all', 'r == is_all(*self)')]),
+        Fn('negate', props=P, ret='r', ensures=[('negated', 'r == negated(*self)')]),
         Fn('toggle_negate', props=P, ret='r',
            ensures=[('flips_negate', 'negated(r) == !negated(*self)'), ('keeps_all', 'is_all(r) == is_all(*self)'),
                     ('keeps_rest', same), ('exact', 'r == with_mods(*self, is_all(*self), !negated(*self))')]),
